@@ -516,7 +516,7 @@ def commentOk : Bool → Bool → Str → Bool
 
 theorem ends_value_cases {c : Char} (h : endsUnquoted valueSettings c = true) :
     isSpace c = true ∨ c = '{' ∨ c = '}' ∨ c = ';' := by
-  simp [endsUnquoted, valueSettings] at h
+  simp [endsUnquoted, valueSettings, Gen.valueSingle] at h
   rcases h with h | h | h | h
   · exact Or.inl h
   · exact Or.inr (Or.inl h)
@@ -835,7 +835,7 @@ theorem collectObjects_simple_defn (fuel : Nat) (st : PState) (stop : Option Wor
           (some (.defn { name := c :: w, id := some st.nextId, line := some (l + nlCount pre) } ws)) := by
   have hc := hnm c (by simp)
   have hcm : structSettings.commentChars.contains c = false := by
-    simp [structSettings, hhash]
+    simp [structSettings, Gen.structComment, hhash]
   have hr : stopsAt structSettings (sp1 ++ '=' :: V) = true :=
     stopsAt_space_append _ _ _ hsp1 (by rfl)
   have h1 : nextWord structSettings st.ci
